@@ -43,6 +43,18 @@ def sim():
                 D.S().emit("q-take", item=_item_id(item), thread=D.S().me().name)
                 return item
 
+            def put(self, item, block=True, timeout=None):
+                s = D.S()
+                name = s.me().name
+                s.emit("q-put-call", thread=name)
+                try:
+                    base.put(self, item, block, timeout)
+                except BaseException as ex:
+                    if not isinstance(ex, D.Abort):
+                        s.emit("q-put-return", thread=name, ok=False)
+                    raise
+                s.emit("q-put-return", thread=name, ok=True)
+
             def get(self, block=True, timeout=None):
                 s = D.S()
                 name = s.me().name
@@ -70,11 +82,11 @@ def _item_id(item):
 # ---------------------------------------------------------------------------
 # Generator
 
-enq_kinds = st.sampled_from(["ret", "ret", "ret", "raise", "gate"])
+enq_kinds = st.sampled_from(["ret", "ret", "ret", "raise", "gate", "partial", "partial-raise"])
 
 
 @st.composite
-def programs(draw, dependency=None):
+def programs(draw, dependency=None, bounded=None):
     mx = draw(st.integers(1, 3))
     mn = draw(st.integers(0, mx))
     main = []
@@ -120,7 +132,12 @@ def programs(draw, dependency=None):
             rest = tasks
         pos = draw(st.integers(0, len(main)))
         main[pos:pos] = rest
-    return {"mx": mx, "mn": mn, "timeout": draw(st.sampled_from([60, 60, 5])), "main": main, "others": others}
+    prog = {"mx": mx, "mn": mn, "timeout": draw(st.sampled_from([60, 60, 5, None])), "main": main, "others": others}
+    if bounded is None:
+        bounded = draw(st.integers(0, 5)) == 0
+    if bounded:
+        prog["qs"] = draw(st.integers(1, 3))
+    return prog
 
 
 @st.composite
@@ -163,7 +180,7 @@ def run_program(prog, chooser, lines=False, policy=(), max_steps=150000):
     run.sched = sched
     policy = list(policy)
     mx = prog["mx"]
-    st_ = {"phase": "stopped", "epoch": 0, "inbody": 0, "consecutive_timers": 0, "started_returned": False}
+    st_ = {"phase": "stopped", "epoch": 0, "inbody": 0, "consecutive_timers": 0, "started_returned": False, "in_enqueue": 0}
     tasks = run.tasks          # id -> info
     env_gates = []
     dep_gates = {}
@@ -214,7 +231,7 @@ def run_program(prog, chooser, lines=False, policy=(), max_steps=150000):
                     waits.wait()
                 if opens is not None:
                     opens.set()
-                if kind == "raise":
+                if kind in ("raise", "partial-raise"):
                     raise info["exc"]
                 return info["ret"]
             finally:
@@ -223,6 +240,12 @@ def run_program(prog, chooser, lines=False, policy=(), max_steps=150000):
                 sched.emit("body-end", task=tid)
         body.task_id = tid
         body.__name__ = "task%d" % tid
+        if kind in ("partial", "partial-raise"):
+            # a callable without __name__ (functools.partial)
+            import functools
+            wrapped = functools.partial(body)
+            wrapped.task_id = tid
+            return wrapped
         return body
 
     pool_box = []
@@ -233,7 +256,19 @@ def run_program(prog, chooser, lines=False, policy=(), max_steps=150000):
         body = make_task(kind, tid)
         tasks[tid]["by"] = by
         sched.emit("enq-call", task=tid)
-        fut = pool_box[0].enqueue(body, tid, k=-tid)
+        st_["in_enqueue"] += 1
+        try:
+            try:
+                fut = pool_box[0].enqueue(body, tid, k=-tid)
+            finally:
+                st_["in_enqueue"] -= 1
+                if sched.aborted:
+                    st_["enqueue_blocked_at_abort"] = True
+        except simqueue.Full:
+            # bounded queue still full after the queue timeout: the task was not accepted
+            sched.emit("enq-full", task=tid)
+            run.stats["enqueue-full"] += 1
+            return tid
         tasks[tid]["future"] = fut
         sched.emit("enq-return", task=tid)
         return tid
@@ -259,7 +294,9 @@ def run_program(prog, chooser, lines=False, policy=(), max_steps=150000):
 
     def on_quiescent(s):
         # -- monitors first (C09 lost task / C10 starvation)
-        if st_["phase"] == "running":
+        # (while an enqueue() is blocked on a full bounded queue it holds the pool lock by
+        # design: workers cannot make progress until the queue timeout, nothing is judged then)
+        if st_["phase"] == "running" and not st_["in_enqueue"]:
             waiting = pending_not_begun()
             if waiting and st_["inbody"] < mx:
                 msg = ("quiescent moment: task(s) %s accepted by a running pool have not begun although only %d of max_threads=%d tasks are executing (%s)"
@@ -294,7 +331,7 @@ def run_program(prog, chooser, lines=False, policy=(), max_steps=150000):
     sched.on_quiescent = on_quiescent
 
     def main():
-        pool = tp.ThreadPool(mx, prog["mn"], timeout=prog.get("timeout", 60), logname="pool")
+        pool = tp.ThreadPool(mx, prog["mn"], queue_size=prog.get("qs", 0), timeout=prog.get("timeout", 60), logname="pool")
         pool_box.append(pool)
         my_futures = []
         threads = []
@@ -413,7 +450,7 @@ def run_program(prog, chooser, lines=False, policy=(), max_steps=150000):
             return
         if not info["ended"]:
             bad("C09/future-early", "future of task %d completed before its body ended" % tid)
-        if info["kind"] == "raise":
+        if info["kind"] in ("raise", "partial-raise"):
             if outcome != ("raised", info["exc"]) or outcome[1] is not info["exc"]:
                 bad("C09/future-outcome", "future of raising task %d gave %r" % (tid, outcome))
         else:
@@ -443,6 +480,22 @@ def analyse(prog, run, st_):
             problems.append(Violation(sig, msg))
 
     mx, mn = prog["mx"], prog["mn"]
+    if run.error is not None and prog.get("qs") and prog.get("timeout", 60) is None and isinstance(run.error, (D.Deadlock, D.StepBudget)):
+        # is some thread blocked for ever inside Queue.put (enqueue() or stop(), both hold the pool lock there)?
+        in_put = {}
+        for step, kind, data in ev:
+            if kind == "q-put-call":
+                in_put[data["thread"]] = True
+            elif kind == "q-put-return":
+                in_put[data["thread"]] = False
+        if any(in_put.values()):
+            # KNOWN FINDING shape: with a bounded queue and timeout=None a put on a full queue blocks for ever
+            # while the pool lock is held; the workers need that lock to finish their task and read the queue
+            msg = "with queue_size=%d and timeout=None a put on the full queue (%s) holds the pool lock for ever: workers cannot go on (%s)" % (
+                prog["qs"], ", ".join(t for t, v in in_put.items() if v), run.error)
+            bad("C09/bounded-queue-timeout-none-put-holds-lock", msg)
+            bad("C11/bounded-queue-timeout-none-put-holds-lock", msg)
+            return
     if run.error is not None:
         # where was the controlling thread?
         inside = None
@@ -571,6 +624,12 @@ def classify(prog, run):
         classes.append("timeout-fired")
     if s["join-with-task-in-body"]:
         classes.append("join-with-task-in-body")
+    if prog.get("qs"):
+        classes.append("bounded-queue")
+    if prog.get("timeout", 60) is None:
+        classes.append("no-idle-timeout")
+    if any(op[0] == "enq" and op[1] in ("partial", "partial-raise") for op in prog["main"] + sum(prog["others"], [])):
+        classes.append("callable-without-__name__")
     if "stop" in ops:
         classes.append("explicit-stop")
     pre = False
